@@ -242,11 +242,22 @@ def grid_marginal_recursion(f, values, grid):
             return np.zeros(grid)
         D = kids[0]
         for k in kids[1:]:
-            nd = np.empty(grid)
-            for t in range(grid):
-                nd[t] = logsumexp([D[a] + k[t - a] for a in range(t + 1)])
+            if grid <= 64:
+                nd = np.empty(grid)
+                for t in range(grid):
+                    nd[t] = logsumexp([D[a] + k[t - a] for a in range(t + 1)])
+            else:
+                # same sum, one matrix: M[t, a] = D[a] + k[t - a] for a <= t
+                t_idx = np.arange(grid)[:, None]
+                a_idx = np.arange(grid)[None, :]
+                diff = t_idx - a_idx
+                M = np.where(diff >= 0, D[None, :] + k[np.clip(diff, 0, grid - 1)], -np.inf)
+                mx = np.max(M, axis=1)
+                nd = mx + np.log(np.sum(np.exp(M - mx[:, None]), axis=1))
             D = nd
-        return np.array([logsumexp(D[: t + 1]) for t in range(grid)])
+        if grid <= 64:
+            return np.array([logsumexp(D[: t + 1]) for t in range(grid)])
+        return np.logaddexp.accumulate(D)
 
     out = np.empty((S, grid))
     for s in range(S):
